@@ -594,7 +594,8 @@ class SparselyBin(Factory, Container):
             and numeq(self.binWidth, other.binWidth)
             and self.quantity == other.quantity
             and numeq(self.entries, other.entries)
-            and sorted(self.bins) == sorted(other.bins)
+            and self.contentType == other.contentType
+            and self.bins == other.bins
             and self.nanflow == other.nanflow
             and numeq(self.origin, other.origin)
         )
